@@ -125,7 +125,7 @@ func runMsgDescNilIn(rc *RuleCtx, rel string) {
 								break
 							}
 							if is, ok := st.(*ast.IfStmt); ok {
-								if be, ok := ast.Unparen(is.Cond).(*ast.BinaryExpr); ok && be.Op == token.EQL && mentions(be.X) && types.ExprString(be.Y) == "nil" && len(is.Body.List) > 0 {
+								if be, ok := ast.Unparen(is.Cond).(*ast.BinaryExpr); ok && be.Op == token.EQL && ((mentions(be.X) && types.ExprString(be.Y) == "nil") || (mentions(be.Y) && types.ExprString(be.X) == "nil")) && len(is.Body.List) > 0 {
 									if _, isRet := is.Body.List[len(is.Body.List)-1].(*ast.ReturnStmt); isRet {
 										guarded = true
 									}
